@@ -653,6 +653,28 @@ func (p *nriPlugin) RemoveContainer(ctx context.Context, pod *api.PodSandbox, co
 	b := metrics.Block()
 	defer b.Done()
 
+	// A container that was created but never started is removed without having
+	// been stopped: give its resources back before it is forgotten.
+	if c, ok := m.cache.LookupContainer(container.Id); ok {
+		switch c.GetState() {
+		case cache.ContainerStateCreated, cache.ContainerStateRunning:
+			p.unmapContainer(c)
+			if err := m.policy.ReleaseResources(c); err != nil {
+				nri.Error("%s: failed to release resources of %s: %v", event, c.PrettyName(), err)
+			}
+			c.UpdateState(cache.ContainerStateExited)
+			c.GetPendingUpdate()
+			for _, ctrl := range c.GetPending() {
+				c.ClearPending(ctrl)
+			}
+			m.updateTopologyZones()
+			// this request has no reply to carry updates: push what the release changed for others
+			if err := p.updateContainers(); err != nil {
+				nri.Warn("%s: failed to update containers: %v", event, err)
+			}
+		}
+	}
+
 	m.cache.DeleteContainer(container.Id)
 	return nil
 }
